@@ -57,7 +57,11 @@ def main(tier):
                     racetext += open(os.path.join(wd, f), errors="replace").read()
             races = parse_races(racetext)
             races_all += races
-            for a in sorted({json.dumps(a) for a in races}):
+            # a report is a statement about gokrb5 when both conflicting accesses are made by gokrb5 code; a report with one side whose stack
+            # the detector could not restore, or made by the harness itself, names no pair of library sites: counted, no verdict
+            onesided = [a for a in races if any("(outside gokrb5)" in y for y in a)]
+            run.extra["race_reports_with_one_unattributed_side"] = run.extra.get("race_reports_with_one_unattributed_side", 0) + len(onesided)
+            for a in sorted({json.dumps(a) for a in races if a not in onesided}):
                 lines.append({"ev": "race", "phase": phase, "accesses": json.loads(a)})
         races = races_all
         distinct_races = [x for x in lines if x["ev"] == "race"]
